@@ -158,7 +158,7 @@ def line_of(m):
     if op == 'acov':
         return 'C11 acov %d %d %s' % (m['nc'], m['nl'], clist(parse_flist(m['x'])))
     if op == 'mar':
-        return 'C11 mar intended %d %d %s' % (m['nc'], m['order'], clist(parse_flist(m['x'])))
+        return 'C11 mar %d %d %s' % (m['nc'], m['order'], clist(parse_flist(m['x'])))
     if op == 'fit':
         return 'C11 fit %s %d %d %s' % (m['crit'], m['order'], m['maxo'], clist(parse_flist(m['x'])))
     if op == 'fitc':
@@ -272,7 +272,7 @@ def judge(m, impl, clause):
     if op == 'acov':
         got = mats(g[0])
         want = direct_autocov(x, m['nl'])
-        if got.shape != want.shape or np.abs(got - want).max() > 1e-9 * np.abs(want).max():
+        if got.shape != want.shape or np.abs(got - want).max() > 1e-9 * np.abs(want[0]).max():
             return fail('value', 'autocov_vector differs from mean_t x_i[t+k] x_j[t] by %.3g' % (np.abs(got - want).max() if got.shape == want.shape else -1))
         return None
     if op == 'mar':
@@ -336,8 +336,7 @@ def judge(m, impl, clause):
         for t in range(len(mar)):
             pred = nz[t] - sum(a[j].dot(mar[t - j - 1]) for j in range(min(t, len(a))))
             worst = max(worst, np.abs(pred - mar[t]).max())
-        if worst > 1e-9 * max(1.0, np.abs(mar).max()):
-            return fail('recursion', 'X(t) + sum a(i) X(t-i) - E(t) = %.3g' % worst)
+XX, 'X(t) + sum a(i) X(t-i) - E(t) = %.3g' % worst)
         return None
     return None
 
@@ -393,6 +392,7 @@ def cases(rng, tier, seed):
         if not np.linalg.cond(block_toeplitz(r, P)) < COND_MAX:
             STATS['skipped_ill_conditioned'] += 1
             continue
+        r = r * float(nrng.choice([1.0, 1.0, 1e-6, 1e-12, 1e4]))       # tiny / large covariances: everything is judged relative to |R(0)|
         m['r'] = flist(r.reshape(-1))
         out.append(mk_case(m, 'lwr/%s/%s' % (tag, 'scalar' if nc == 1 else 'multi'), cmp_groups()))
     # --- autocov_vector, MAR_est_LWR
@@ -400,7 +400,7 @@ def cases(rng, tier, seed):
     for i in range(n_cov):
         nc = int(nrng.randint(1, 5))
         N = int(nrng.choice([64, 100, 256] + ([1024] if big else [])))
-        x = coloured(nrng, nc, N)
+        x = coloured(nrng, nc, N) * float(nrng.choice([1.0, 1e-3, 1e-6, 30.0]))
         m = {'op': 'acov', 'nc': nc, 'nl': int(nrng.randint(1, 7)), 'x': flist(x.reshape(-1))}
         out.append(mk_case(m, 'autocov', cmp_groups(rtol=1e-9)))
         order = int(nrng.randint(1, 6))
@@ -412,6 +412,7 @@ def cases(rng, tier, seed):
     for i in range(n_fit):
         N = int(nrng.choice([128, 256, 400]))
         x = coloured(nrng, 2, N) if i % 4 != 3 else nrng.randn(2, N)     # white data: order 0 is the answer
+        x = x * float(nrng.choice([1.0, 1.0, 1e-6, 100.0]))
         if i % 2 == 0:
             m = {'op': 'fit', 'nc': 2, 'crit': 'bic', 'order': int(nrng.randint(0, 6)), 'maxo': 10, 'x': flist(x.reshape(-1))}
             cl = 'fit/fixed'
@@ -442,9 +443,9 @@ def cases(rng, tier, seed):
         P = int(nrng.randint(1, 5))
         A = stable_var(nrng, nc, P, 0.8)
         L = nrng.randn(nc, nc)
-        cov = L.dot(L.T) + 0.2 * np.eye(nc)
+        cov = (L.dot(L.T) + 0.2 * np.eye(nc)) * float(nrng.choice([1.0, 1e-6, 1e2]))
         m = {'op': 'gmar', 'nc': nc, 'a': flist((-A).reshape(-1)), 'cov': flist(cov.reshape(-1)),
-             'N': int(nrng.choice([1, 3, 10, 40])), 'seed': int(nrng.randint(0, 2**31 - 1))}
+             'N': int(nrng.choice([1, 2, 3, 5, 10, 40])), 'seed': int(nrng.randint(0, 2**31 - 1))}
         out.append(mk_case(m, 'generate_mar', cmp_groups(rtol=1e-9)))
     return out
 
